@@ -2,7 +2,7 @@
 from .enc import NONE_I
 from . import drivers as _d
 
-SOURCES = ['bytes', 'bytearray', 'bytesio', 'bitarray_kw', 'filename', 'filehandle']
+SOURCES = ['bytes', 'bytearray', 'bytesio', 'bitarray_kw', 'filename', 'filehandle', 'bitarray_le_kw']
 
 
 def window_program(rng, big=False):
@@ -12,7 +12,7 @@ def window_program(rng, big=False):
         kind = rng.choice(SOURCES)
         if kind in ('filename', 'filehandle') and nbytes == 0:
             nbytes = 1      # an empty file cannot be memory mapped
-        nbits = 8 * nbytes if kind != 'bitarray_kw' else rng.choice([8 * nbytes, max(0, 8 * nbytes - 3)])
+        nbits = 8 * nbytes if kind not in ('bitarray_kw', 'bitarray_le_kw') else rng.choice([8 * nbytes, max(0, 8 * nbytes - 3)])
         src = _d.rand_bits(rng, nbits)
         r = rng.random()
         if r < 0.15:
